@@ -65,6 +65,13 @@ def _die_with_parent():
         ctypes.CDLL("libc.so.6").prctl(1, signal.SIGKILL)     # PR_SET_PDEATHSIG
     except Exception:
         pass
+    try:
+        # a runaway program under a changed asynq must not take the machine down: 6 GB of address space per worker
+        # (a worker normally needs < 1 GB); hitting the limit shows up as a MemoryError / dead worker = harness error
+        import resource
+        resource.setrlimit(resource.RLIMIT_AS, (6 << 30, 6 << 30))
+    except Exception:
+        pass
 
 
 class Worker(object):
